@@ -22,6 +22,7 @@ import (
 	gnosisdb "github.com/shutter-network/rolling-shutter/rolling-shutter/keyperimpl/gnosis/database"
 	"github.com/shutter-network/rolling-shutter/rolling-shutter/p2pmsg"
 
+	"verif/sim/pgsim"
 	"verif/sim/ref"
 	"verif/sim/simeth"
 	"verif/sim/simkit"
@@ -31,7 +32,7 @@ import (
 func init() {
 	simkit.Register(&simkit.Property{
 		ID: "C19", Level: "exploration", Bubble: true, Run: runC19,
-		Rule: "World D+C, Gnosis flavour: 2-3 real keyper stacks (flavour handlers, middleware, KeyShareHandler, real SequencerSyncer on simeth, real maybeTriggerDecryption incl. tx-pointer ageing through a stubbed beacon API, pgsim). Per run 6-22 steps over {new blocks with 0-3 TransactionSubmitted events (gas below / at / above the encrypted gas limit, two eons), slot trigger on all or a subset of keypers (subset < threshold makes no keys appear, the pointer ages), keyper restart (real ResetAllTxPointerAges)}; all deliveries, database and RPC round trips are scheduler choices, so slot triggers interleave with received and self-produced keys messages. Oracles: every emitted trigger's identity list equals ref.GnosisSelect(slot, the node's synced queue, the pointer recorded with the trigger, gas limit) - slot identity first, gas-bounded prefix with the at-least-one rule, sorted; triggers of different keypers for one slot with the same pointer are byte-identical; at quiescence after a keys message (p, k) was processed (received and accepted, or self-produced and published) the pointer row is (p+k-1, age 0) and in a slot without a processed keys message the pointer value does not move; when the pointer was NULL-aged (restart) or older than the maximum and nothing is in flight the next trigger starts at the queue length. Non-trivial = a run with an outdated/unknown pointer fallback or a gas-limit cut; distinct = distinct trace hashes among those.",
+		Rule: "World D+C, Gnosis flavour: 2-3 real keyper stacks (flavour handlers, middleware, KeyShareHandler, real SequencerSyncer on simeth, real maybeTriggerDecryption incl. tx-pointer ageing through a stubbed beacon API, pgsim). Per run 6-22 steps over {new blocks with 0-3 TransactionSubmitted events (gas below / at / above the encrypted gas limit, two eons), slot trigger on all or a subset of keypers (subset < threshold makes no keys appear, the pointer ages), keyper restart (real ResetAllTxPointerAges)}; all deliveries, database and RPC round trips are scheduler choices, so slot triggers interleave with received and self-produced keys messages. Fault: in a third of the runs the INSERT INTO tx_pointer statement fails with probability 15% (db.stmt_error). Oracles: every emitted trigger's identity list equals ref.GnosisSelect(slot, the node's synced queue, the pointer recorded with the trigger, gas limit) - slot identity first, gas-bounded prefix with the at-least-one rule, sorted; triggers of different keypers for one slot with the same pointer are byte-identical; at quiescence after a keys message (p, k) was processed (received and accepted, or self-produced and published) the pointer row is (p+k-1, age 0) and in a slot without a processed keys message the pointer value does not move; when the pointer was NULL-aged (restart) or older than the maximum and nothing is in flight the next trigger starts at the queue length. Non-trivial = a run with an outdated/unknown pointer fallback or a gas-limit cut; distinct = distinct trace hashes among those.",
 		Assumptions: []string{"the sequencer contract enforces the minimum gas per transaction", "the beacon node's proposer duties are served by an in-process stub; the proposer is registered"},
 		Real:        []string{"gnosis.Keyper.maybeTriggerDecryption/triggerDecryption/getTxPointer/getDecryptionIdentityPreimages", "gnosis handlers + MessagingMiddleware (advanceTxPointer)", "gnosis.SequencerSyncer", "epochkghandler", "p2p", "sqlc/pgx"},
 		Stub:        []string{"libp2p (simnet)", "PostgreSQL (pgsim)", "execution node (simeth)", "beacon API (in-process http.RoundTripper)", "DKG (trusted dealer)"},
@@ -132,6 +133,8 @@ func runC19(r *simkit.Run) {
 	// keys messages processed per node (received+accepted, or self-produced)
 	type keysMsg struct{ p, k int64 }
 	lastKeys := map[string][]keysMsg{}
+	selfKeys := map[string]int{}      // node -> number of self-produced (published) keys messages this slot
+	ptrWriteFailed := map[string]bool{} // node -> an injected failure hit its pointer write this slot
 	noteKeys := func(node string, data []byte) {
 		m, _, err := p2pmsg.Unmarshal(data)
 		if err != nil {
@@ -159,7 +162,21 @@ func runC19(r *simkit.Run) {
 	w.net.OnPublishVerdict = func(p *simnet.Published, pn *simnet.Node, res pubsub.ValidationResult) {
 		if p.Topic == "decryptionKeys" && res == pubsub.ValidationAccept {
 			noteKeys(pn.Name, p.Data)
+			selfKeys[pn.Name]++
 		}
+	}
+	// partial failure: in a third of the runs the statement that stores the pointer fails now
+	// and then (the caller must then not release the keys message: processed message and
+	// pointer move together)
+	if c.Chance(330, "pointer-write-faults") {
+		w.stmtFault = func(nd *cNode, req *pgsim.Request) bool {
+			if strings.HasPrefix(strings.TrimSpace(req.SQL), "INSERT INTO tx_pointer") && c.Chance(150, "db.stmt_error") {
+				ptrWriteFailed[nd.name] = true
+				return true
+			}
+			return false
+		}
+		r.Probe("runs-with-pointer-write-faults")
 	}
 	w.gate()
 
@@ -314,6 +331,8 @@ func runC19(r *simkit.Run) {
 			}
 			before := len(trigs)
 			lastKeys = map[string][]keysMsg{}
+			selfKeys = map[string]int{}
+			ptrWriteFailed = map[string]bool{}
 			type ptrRow struct {
 				val int64
 				ok  bool
@@ -375,6 +394,13 @@ func runC19(r *simkit.Run) {
 			// (c) pointer after keys; the pointer value moves only through a processed keys message
 			for _, cn := range cns {
 				ks := lastKeys[cn.nd.name]
+				if ptrWriteFailed[cn.nd.name] && selfKeys[cn.nd.name] == 0 {
+					// the handling of a received keys message failed at the pointer write (injected):
+					// that message was not processed; nothing is owed. (A self-produced message is
+					// only ever released after its pointer write succeeded, so it stays owed.)
+					r.Probe("pointer-write-failed-on-receipt")
+					continue
+				}
 				if len(ks) == 0 {
 					val, age, ok := pointerOf(cn.nd)
 					pb := ptrBefore[cn.nd.name]
